@@ -443,21 +443,26 @@ def _law_case(case):
                        None, name=name, scale=scale, lam=lam)
         # center_by_mass: a translation that brings the centre of mass to the middle of the box, whatever the scale
         rng_c = gen.rng_for(case.params["iseed"], "c19-cbm")
-        cshape = tuple(int(v) for v in rng_c.integers(12, 18, 3))
-        off = rng_c.uniform(-2.0, 2.0, 3)
-        cimg = gen.render_box(cshape, [(1.0, off, 1.6), (0.6, off + rng_c.uniform(-1.5, 1.5, 3), 1.3)])
+        # (an object that vanishes well inside the box: with density at the faces the replicated edge values move the
+        #  centre of mass by 0.1-0.25 px and the mass by > 10 % - first version of this stratum, thorough seed 0)
+        cshape = tuple(int(v) for v in rng_c.integers(18, 24, 3))
+        off = rng_c.uniform(-1.5, 1.5, 3)
+        cimg = gen.render_box(cshape, [(1.0, off, 1.4), (0.6, off + rng_c.uniform(-1.0, 1.0, 3), 1.2)])
         from scipy import ndimage as _ndc
         for ordc in (1, 3):
             c_a = np.asarray(pipe.center_by_mass(order=ordc)(cimg, scale), np.float64)
             c_b = np.asarray(pipe.center_by_mass(order=ordc)(cimg, scale * lam), np.float64)
             com = np.array(_ndc.center_of_mass(c_a))
             mid = (np.array(cshape) - 1) / 2
+            mid2 = np.array(cshape) / 2       # acryo's choice; either reading of "the centre of the box" is accepted
             case.check(c_a.shape == cshape and np.array_equal(c_a, c_b), "center_by_mass depends on the scale", None)
-            case.check(float(np.abs(com - mid).max()) <= 0.6, "center_by_mass leaves the centre of mass away from the "
+            dev = min(float(np.abs(com - mid).max()), float(np.abs(com - mid2).max()))
+            case.maxobs("max_center_by_mass_com_dev", dev)
+            case.check(dev <= 0.1, "center_by_mass leaves the centre of mass away from the "
                        "middle of the box", None, com=com, middle=mid, order=ordc)
             case.maxobs("max_center_by_mass_mass_change", abs(float(c_a.sum()) / float(cimg.sum()) - 1))
-            case.check(abs(float(c_a.sum()) / float(cimg.sum()) - 1) <= 0.10, "center_by_mass changed the mass of the image "
-                       "by more than 10 % (not a translation)", None, order=ordc)
+            case.check(abs(float(c_a.sum()) / float(cimg.sum()) - 1) <= 0.05, "center_by_mass changed the mass of the image "
+                       "by more than 5 % (not a translation)", None, order=ordc)
         shp = tuple((float(n) + 0.3) * scale for n in rng.integers(6, 12, 3))
         g1 = pipe.from_gaussian(shp, sig, sh)(scale)
         g2 = pipe.from_gaussian(tuple(v * lam for v in shp), sig * lam, tuple(v * lam for v in sh))(scale * lam)
